@@ -338,7 +338,8 @@ def add_path_task(shape, with_origin, with_dest):
         c.oblige("post", "add_path adds every node, every link between its two neighbours (in path direction), the origin at the first and the destination at the last node, and nothing else",
                  T.const(same), assume_after=False)
 
-    return Task(f"{NETQ}:Network.add_path<{label}>", run, props=("C08", "C09", "C02", "C04", "C06", "C07", "C19"), func=f"{NETQ}:Network.add_path", config=label)
+    return Task(f"{NETQ}:Network.add_path<{label}>", run, props=("C08", "C09", "C02", "C04", "C06", "C07", "C19"), func=f"{NETQ}:Network.add_path", config=label,
+                bounded=f"concrete path shapes up to length {PATH_BOUND}")
 
 
 class _Iterable:
